@@ -203,8 +203,43 @@ def parameters_under_let(chk):
                replay={"confirmed": got != want, "input": definition + " " + call, "observed": repr(got), "expected": repr(want)})
 
 
+def literal_unpack_operands(chk):
+    """Call side: the operand of #* / #** is an ordinary value form.  When it is written as a literal, its elements are
+    elements - a keyword inside `#* [...]` is a Keyword object passed positionally, not the name of a keyword argument.  The callee
+    records what it was given; the expectation is built from the elements, independently of the compiler."""
+    import types
+    import hy
+    from hy.models import Keyword as K
+    spy = "(defn f [#* a #** k] #(a (dict (sorted (.items k)))))"
+    cases = [
+        ("#* list literal holding a keyword and a value", "(f #* [:b 7])", ((K("b"), 7), {})),
+        ("#* list literal ending in a keyword", "(f #* [1 2 :z])", ((1, 2, K("z")), {})),
+        ("#* list literal of two keywords", "(f #* [:x :y])", ((K("x"), K("y")), {})),
+        ("#* tuple literal holding a keyword", "(f #* #(:b 7))", ((K("b"), 7), {})),
+        ("#* list literal between positional and keyword arguments", "(f 0 #* [:b 7] :c 1)", ((0, K("b"), 7), {"c": 1})),
+        ("#* list literal after a keyword argument", "(f :c 1 #* [:b 7])", ((K("b"), 7), {"c": 1})),
+        ("#* list literal nested in a #* list literal", "(f #* [0 #* [:b 7]])", ((0, K("b"), 7), {})),
+        ("#* list literal of plain values", "(f #* [1 2] 3)", ((1, 2, 3), {})),
+        ("#* list literal holding an unpack-mapping-looking list", "(f #* [[:b 7]])", (([K("b"), 7],), {})),
+        ("two #* list literals", "(f #* [:a] #* [:b 1])", ((K("a"), K("b"), 1), {})),
+        ("#** dict literal", "(f #** {\"b\" 7})", ((), {"b": 7})),
+        ("#** dict literal after #* list literal", "(f #* [:b] #** {\"b\" 7})", ((K("b"),), {"b": 7})),
+        ("#* empty list literal", "(f #* [] :c 1)", ((), {"c": 1})),
+        ("#* set-free generator of keywords", "(f #* (lfor x [:p :q] x))", ((K("p"), K("q")), {})),
+    ]
+    for what, call, want in cases:
+        try:
+            got = hy.eval(hy.read_many(spy + " " + call), module=types.ModuleType("hv_c05u"))
+        except Exception as e:  # noqa: BLE001
+            got = f"{type(e).__name__}: {e}"[:200]
+        chk.case(("literal-unpack", what))
+        chk.ob(f"call/unpacking a literal/{what}", got == want, "cpython-oracle", "proved", detail=f"{call} -> {got!r}, the elements are {want!r}",
+               replay=None if got == want else {"confirmed": True, "input": spy + " " + call, "observed": repr(got), "expected": repr(want)})
+
+
 def run(chk):
     parameters_under_let(chk)
+    literal_unpack_operands(chk)
     quick = chk.tier == "quick"
     maxn = 4 if quick else 6
     lls = lambda_lists(maxn)
